@@ -7,7 +7,7 @@ from .net import Space, Unmodelled, TypeViolation
 from .sym import Facts
 
 
-def run_entry(model: Model, func_short: str, make_args, hooks=None, limit=300, presets=None, driver=None) -> list[Outcome]:
+def run_entry(model: Model, func_short: str, make_args, hooks=None, limit=1500, presets=None, driver=None) -> list[Outcome]:
     f = model.func(func_short)
     ex = Explorer(limit=limit, presets=presets)
     outcomes = []
